@@ -565,6 +565,8 @@ class Executor:
                 h = self.w.str_handlers.get(k)
                 if h is not None:
                     return h(self, st, v)
+        if isinstance(v.ty, Opt) and v.ty.t is not None:
+            return z3.If(V.is_none(v.t), z3.StringVal("None"), self.str_of(st, Val(v.t, v.ty.t), node))
         n = V.ival(v.t)
         return z3.If(
             V.is_s(v.t),
